@@ -592,6 +592,10 @@ func (s *serverConnection) createLegacyForwardingAddress() string {
 	if marker := s.forgeExtraDataProperty(); marker != "" {
 		properties = append(properties, profile.Property{Name: "extraData", Value: marker})
 	}
+	if properties == nil {
+		// A nil slice marshals to "null"; BungeeCord backends expect a JSON array.
+		properties = []profile.Property{}
+	}
 	props, err := json.Marshal(properties)
 	if err != nil { // should never happen
 		panic(err)
